@@ -16,8 +16,10 @@ import time
 from . import build
 
 VERIF = build.VERIF
-EVIDENCE_DIR = os.path.join(VERIF, "evidence")
-REPLAY_DIR = os.path.join(VERIF, "replays")
+# VERIF_OUT_DIR: development aid (runs against seeded/planted worktrees must not overwrite the evidence of the real tree)
+_OUT = os.environ.get("VERIF_OUT_DIR", VERIF)
+EVIDENCE_DIR = os.path.join(_OUT, "evidence")
+REPLAY_DIR = os.path.join(_OUT, "replays")
 KNOWN_FILE = os.path.join(VERIF, "known_findings.json")
 EXIT_SAN = 86
 
